@@ -12,7 +12,7 @@ TOKEN_RE = re.compile(r'''
   | (?P<bcomment>/\*.*?\*/|/\*.*\Z)
   | (?P<float>\d+(?:\.\d+)?[eE][+-]?\d+|\d+\.\d+)
   | (?P<int>\d+)
-  | (?P<id>[A-Za-z_][A-Za-z_0-9]*)
+  | (?P<id>[A-Za-z_][A-Za-z_0-9$#]*)
   | (?P<string>"[^"]*")
   | (?P<op>%s)
   | (?P<other>.)
